@@ -38,12 +38,12 @@ pub const PROST_CODEC: FuzzTarget = FuzzTarget {
 };
 
 /// libFuzzer stage budget (thorough tier): fixed -runs per job, independent jobs with seeds s, s+1, ...
-pub const FUZZ_JOBS: u32 = 8;
+pub const FUZZ_JOBS: u32 = 16;
 /// measured (ASan build, one core): ms_listener ~1100, ms_dialer ~450, mplex_codec ~670, prost_codec ~2100 exec/s
-pub const MS_LISTENER_RUNS_PER_JOB: u64 = 200_000;
-pub const MS_DIALER_RUNS_PER_JOB: u64 = 100_000;
-pub const MPLEX_RUNS_PER_JOB: u64 = 150_000;
-pub const PROST_RUNS_PER_JOB: u64 = 400_000;
+pub const MS_LISTENER_RUNS_PER_JOB: u64 = 800_000;
+pub const MS_DIALER_RUNS_PER_JOB: u64 = 400_000;
+pub const MPLEX_RUNS_PER_JOB: u64 = 600_000;
+pub const PROST_RUNS_PER_JOB: u64 = 1_600_000;
 
 fn beyond_header(end: &End, rejected: usize) -> bool {
     match end {
